@@ -190,6 +190,18 @@ def _all_return(stmts):
     return False
 
 
+def _pure_decision(helper):
+    """A helper whose body is a side-effect-free decision list (`if c: return A` ... `return B`): usable in expression position."""
+    if isinstance(helper, ast.AsyncFunctionDef) or helper.decorator_list or _has(helper, (ast.Yield, ast.YieldFrom, ast.Await, ast.Global, ast.Nonlocal)):
+        return False
+    hb = [s_ for s_ in helper.body if not (isinstance(s_, ast.Expr) and isinstance(s_.value, ast.Constant))]
+    if any(isinstance(x, (ast.Assign, ast.AugAssign, ast.Expr, ast.For, ast.While, ast.Try, ast.With, ast.Raise, ast.Delete)) for s_ in hb for x in ast.walk(s_)):
+        return False
+    if any(isinstance(n, ast.Call) and isinstance(n.func, ast.Name) and n.func.id == helper.name for n in ast.walk(helper)):
+        return False
+    return _decision_expr(hb) is not None
+
+
 def _inlinable(helper):
     if isinstance(helper, ast.AsyncFunctionDef):
         return False
@@ -216,9 +228,25 @@ def _expand(call, helper, is_method, context, target, caller):
     valued = [r for r in rets if r.value is not None]
     if context == "stmt" and valued:
         return None
+    multi_assign = False
     if context == "assign":
         if len(rets) != 1 or rets[0] is not helper.body[-1] or rets[0].value is None:
-            return None
+            # several returns, each the last statement of an arm of a final if/elif/else whose other arms return or raise:
+            # each `return V` becomes `target = V`
+            def ends(stmts):
+                if not stmts:
+                    return False
+                last = stmts[-1]
+                if isinstance(last, ast.Return):
+                    return last.value is not None
+                if isinstance(last, ast.Raise):
+                    return True
+                if isinstance(last, ast.If) and last.orelse:
+                    return ends(last.body) and ends(last.orelse)
+                return False
+            if not (valued and len(valued) == len(rets) and ends(helper.body)):
+                return None
+            multi_assign = True
     pre = []
     # parameters assigned inside the helper, or bound to non-simple arguments used more than once, become locals
     stored = set(n.id for n in _own_nodes(helper) if isinstance(n, ast.Name) and isinstance(n.ctx, ast.Store))
@@ -267,6 +295,15 @@ def _expand(call, helper, is_method, context, target, caller):
         last = body[-1] if body else None
         if not isinstance(last, (ast.Return, ast.Raise)):
             body.append(ast.Return(value=ast.Constant(value=None)))
+    elif context == "assign" and multi_assign:
+        def to_assign(stmts):
+            last = stmts[-1]
+            if isinstance(last, ast.Return):
+                stmts[-1] = ast.Assign(targets=[copy.deepcopy(target)], value=last.value)
+            elif isinstance(last, ast.If):
+                to_assign(last.body)
+                to_assign(last.orelse)
+        to_assign(body)
     elif context == "assign":
         ret = body.pop()
         body.append(ast.Assign(targets=[copy.deepcopy(target)], value=ret.value))
@@ -299,7 +336,7 @@ def inline_module(tree, modname):
             qual = "%s.%s" % (modname, name) if cname is None else "%s.%s.%s" % (modname, cname, name)
             if qual in base or not name.startswith("_") or (name.startswith("__") and name.endswith("__")):
                 continue
-            if _inlinable(f):
+            if _inlinable(f) or _pure_decision(f):
                 out[name] = f
         return out
 
@@ -356,11 +393,27 @@ def inline_module(tree, modname):
                     while i < len(stmts):
                         s = stmts[i]
                         rep = None
-                        if isinstance(s, ast.Expr) and isinstance(s.value, ast.Call) and match(s.value) is not None:
+                        # f(helper(...)) with helper the sole argument of a plain call: the helper's result is named first
+                        # (`t = helper(...)`; `... f(t)`), which is the same evaluation order, so that it can be expanded below
+                        v0 = getattr(s, "value", None)
+                        if isinstance(s, (ast.Assign, ast.Return, ast.Expr)) and isinstance(v0, ast.Call) and match(v0) is None \
+                                and len(v0.args) == 1 and not v0.keywords and isinstance(v0.args[0], ast.Call) and match(v0.args[0]) is not None \
+                                and _inlinable(match(v0.args[0])) and not _pure_decision(match(v0.args[0])) \
+                                and (isinstance(v0.func, ast.Name) or (isinstance(v0.func, ast.Attribute) and (_is_chain(v0.func) or isinstance(v0.func.value, ast.Constant)))):
+                            tmpn = "%s__val" % match(v0.args[0]).name.lstrip("_")
+                            if not any(isinstance(y, ast.Name) and y.id == tmpn for y in ast.walk(caller)):
+                                pre_ = ast.Assign(targets=[ast.Name(id=tmpn, ctx=ast.Store())], value=v0.args[0])
+                                ast.copy_location(pre_, s)
+                                v0.args[0] = ast.copy_location(ast.Name(id=tmpn, ctx=ast.Load()), v0)
+                                ast.fix_missing_locations(pre_)
+                                stmts[i:i] = [pre_]
+                                s = pre_
+                                changed = True
+                        if isinstance(s, ast.Expr) and isinstance(s.value, ast.Call) and match(s.value) is not None and _inlinable(match(s.value)):
                             rep = _expand(s.value, match(s.value), cname is not None, "stmt", None, caller)
-                        elif isinstance(s, ast.Return) and isinstance(s.value, ast.Call) and match(s.value) is not None:
+                        elif isinstance(s, ast.Return) and isinstance(s.value, ast.Call) and match(s.value) is not None and _inlinable(match(s.value)):
                             rep = _expand(s.value, match(s.value), cname is not None, "return", None, caller)
-                        elif isinstance(s, ast.Assign) and len(s.targets) == 1 and isinstance(s.value, ast.Call) and match(s.value) is not None:
+                        elif isinstance(s, ast.Assign) and len(s.targets) == 1 and isinstance(s.value, ast.Call) and match(s.value) is not None and _inlinable(match(s.value)):
                             rep = _expand(s.value, match(s.value), cname is not None, "assign", s.targets[0], caller)
                         if rep is not None:
                             h = match(s.value)
@@ -482,6 +535,60 @@ def inline_module(tree, modname):
             others = sum(1 for n in ast.walk(outer) if isinstance(n, ast.Name) and n.id == h and isinstance(n.ctx, ast.Load))
             if used[h] > 0 and others == 0:
                 outer.body.remove(f)
+    # closures that only splice their *args into one expression: `def mk(*extra): return C(a, b, *extra, c)`, called as mk(x) / mk()
+    base_names = set(b.split(".")[-2] + "." + b.split(".")[-1] for b in base if b.count(".") >= 2)
+    for outer in [n for n in ast.walk(tree) if isinstance(n, (ast.FunctionDef, ast.AsyncFunctionDef))]:
+        for f in list(outer.body):
+            if not (isinstance(f, ast.FunctionDef) and not f.decorator_list and f.args.vararg and not f.args.args and not f.args.kwonlyargs
+                    and not f.args.kwarg and not f.args.posonlyargs and "%s.%s" % (outer.name, f.name) not in base_names):
+                continue
+            hb = [s_ for s_ in f.body if not (isinstance(s_, ast.Expr) and isinstance(s_.value, ast.Constant))]
+            if not (len(hb) == 1 and isinstance(hb[0], ast.Return) and hb[0].value is not None):
+                continue
+            va = f.args.vararg.arg
+            expr = hb[0].value
+            parents = {}
+            for n in ast.walk(expr):
+                for c in ast.iter_child_nodes(n):
+                    parents[id(c)] = n
+            uses = [n for n in ast.walk(expr) if isinstance(n, ast.Name) and n.id == va]
+            if not uses or not all(isinstance(parents.get(id(u)), ast.Starred) and isinstance(parents.get(id(parents[id(u)])), ast.Call)
+                                   and parents[id(u)] in parents[id(parents[id(u)])].args for u in uses):
+                continue
+            loads = [n for n in ast.walk(outer) if isinstance(n, ast.Name) and n.id == f.name and isinstance(n.ctx, ast.Load)]
+            calls = [n for n in ast.walk(outer) if isinstance(n, ast.Call) and isinstance(n.func, ast.Name) and n.func.id == f.name
+                     and not n.keywords and not any(isinstance(a, ast.Starred) for a in n.args)]
+            if not calls or len(calls) != len(loads) or any(c in ast.walk(f) for c in calls):
+                continue
+            call_ids = set(id(c) for c in calls)
+
+            class Splice(ast.NodeTransformer):
+                def visit_Call(self, node):
+                    self.generic_visit(node)
+                    if id(node) in call_ids:
+                        new_ = copy.deepcopy(expr)
+                        for c2 in ast.walk(new_):
+                            if isinstance(c2, ast.Call):
+                                out_args = []
+                                for a in c2.args:
+                                    if isinstance(a, ast.Starred) and isinstance(a.value, ast.Name) and a.value.id == va:
+                                        out_args += [copy.deepcopy(x) for x in node.args]
+                                    else:
+                                        out_args.append(a)
+                                c2.args = out_args
+                        for n_ in ast.walk(new_):
+                            n_.lineno = getattr(node, "lineno", 1)
+                            n_.col_offset = getattr(node, "col_offset", 0)
+                            n_.end_lineno = getattr(node, "end_lineno", n_.lineno)
+                            n_.end_col_offset = getattr(node, "end_col_offset", 0)
+                        return new_
+                    return node
+            for st in outer.body:
+                if st is f:
+                    continue
+                Splice().visit(st)
+            outer.body.remove(f)
+            dropped.setdefault(None, set()).add(f.name)
     return dropped
 
 
@@ -634,7 +741,259 @@ def _propagate_aliases(fn):
             n.end_col_offset = 0
 
 
+def _index_loop_to_for(fn):
+    """   i = 0                      i = len(X) - 1
+          while i < len(X):          while i >= 0:
+              v = X[i]                   v = X[i]
+              BODY                       BODY
+              i += 1                     i -= 1
+    become `for v in X: BODY` / `for v in reversed(X): BODY` when X is a plain local name that BODY does not assign, BODY neither
+    reads nor writes i, and BODY has no `continue`/`break` of this loop (the rewrite is exact under these conditions: the index
+    form visits the same elements in the same order)."""
+    def walk_body(stmts):
+        for st in stmts:
+            yield st
+            for fld in ("body", "orelse", "finalbody"):
+                sub = getattr(st, fld, None)
+                if isinstance(sub, list) and not isinstance(st, (ast.FunctionDef, ast.AsyncFunctionDef, ast.ClassDef)):
+                    for x in walk_body(sub):
+                        yield x
+            for h in getattr(st, "handlers", []) or []:
+                for x in walk_body(h.body):
+                    yield x
+
+    def rewrite(stmts):
+        k = 0
+        while k < len(stmts):
+            st = stmts[k]
+            for fld in ("body", "orelse", "finalbody"):
+                sub = getattr(st, fld, None)
+                if isinstance(sub, list) and not isinstance(st, (ast.ClassDef,)) and not (isinstance(st, (ast.FunctionDef, ast.AsyncFunctionDef)) and st is not fn):
+                    rewrite(sub)
+            for h in getattr(st, "handlers", []) or []:
+                rewrite(h.body)
+            if isinstance(st, ast.While) and not st.orelse and k >= 1 and len(st.body) >= 2:
+                init = stmts[k - 1]
+                first, last = st.body[0], st.body[-1]
+                ok = (isinstance(init, ast.Assign) and len(init.targets) == 1 and isinstance(init.targets[0], ast.Name)
+                      and isinstance(first, ast.Assign) and len(first.targets) == 1 and isinstance(first.targets[0], ast.Name)
+                      and isinstance(first.value, ast.Subscript) and isinstance(first.value.value, ast.Name) and isinstance(first.value.slice, ast.Name)
+                      and isinstance(last, ast.AugAssign) and isinstance(last.target, ast.Name) and isinstance(last.value, ast.Constant) and last.value.value == 1)
+                if ok:
+                    i, X, v = init.targets[0].id, first.value.value.id, first.targets[0].id
+                    ok = first.value.slice.id == i and last.target.id == i and v not in (i, X)
+                direction = None
+                if ok:
+                    t = ast.unparse(st.test).replace(" ", "")
+                    iv = ast.unparse(init.value).replace(" ", "")
+                    if iv == "0" and t in ("%s<len(%s)" % (i, X), "len(%s)>%s" % (X, i)) and isinstance(last.op, ast.Add):
+                        direction = "forward"
+                    elif iv == "len(%s)-1" % X and t in ("%s>=0" % i, "0<=%s" % i, "%s>-1" % i) and isinstance(last.op, ast.Sub):
+                        direction = "reverse"
+                    ok = direction is not None
+                if ok:
+                    mid = st.body[1:-1]
+                    for x in walk_body(mid):
+                        if isinstance(x, (ast.Continue, ast.Break)):
+                            # only those of inner loops are harmless; be conservative
+                            ok = False
+                        for y in ast.walk(x) if not isinstance(x, (ast.FunctionDef, ast.AsyncFunctionDef, ast.ClassDef)) else []:
+                            if isinstance(y, ast.Name) and y.id == i:
+                                ok = False
+                            if isinstance(y, ast.Name) and y.id == X and isinstance(y.ctx, (ast.Store, ast.Del)):
+                                ok = False
+                if ok:
+                    # i must not be used after the loop
+                    rest = stmts[k + 1:]
+                    if any(isinstance(y, ast.Name) and y.id == i for r in rest for y in ast.walk(r)):
+                        ok = False
+                if ok:
+                    it = ast.Name(id=X, ctx=ast.Load())
+                    if direction == "reverse":
+                        it = ast.Call(func=ast.Name(id="reversed", ctx=ast.Load()), args=[it], keywords=[])
+                    new = ast.For(target=ast.Name(id=v, ctx=ast.Store()), iter=it, body=mid or [ast.Pass()], orelse=[], type_comment=None)
+                    ast.copy_location(new, st)
+                    ast.fix_missing_locations(new)
+                    stmts[k - 1:k + 1] = [new]
+                    k -= 1
+            k += 1
+    rewrite(fn.body)
+
+
+def _inline_single_use_temps(fn):
+    """   t = E                       A local that is assigned in a statement list and read exactly once, by the next statement of
+          S(... t ...)    ->  S(... E ...)   the same list that mentions it, is substituted there and its assignment dropped, when that
+    cannot move the evaluation of E past anything observable:
+      * E without calls / yield / await (a plain read): the statements in between are themselves plain local assignments;
+      * E with a call: S is the very next statement and consists of `target = t`, `return t` or `target op= t` (t is the first
+        thing S evaluates).
+    All definitions and all uses of t must be simple statements of this one list (no use in nested blocks, closures, handlers)."""
+    nested_names = set()
+    for n in ast.walk(fn):
+        if isinstance(n, (ast.FunctionDef, ast.AsyncFunctionDef, ast.Lambda, ast.ClassDef, ast.GeneratorExp, ast.ListComp, ast.SetComp, ast.DictComp)) and n is not fn:
+            for y in ast.walk(n):
+                if isinstance(y, ast.Name):
+                    nested_names.add(y.id)
+        elif isinstance(n, (ast.Global, ast.Nonlocal)):
+            nested_names.update(n.names)
+    params = set(a.arg for a in fn.args.posonlyargs + fn.args.args + fn.args.kwonlyargs)
+    if fn.args.vararg:
+        params.add(fn.args.vararg.arg)
+    if fn.args.kwarg:
+        params.add(fn.args.kwarg.arg)
+    SIMPLE = (ast.Assign, ast.AugAssign, ast.Expr, ast.Return, ast.AnnAssign)
+
+    def has_effect(e):
+        return any(isinstance(y, (ast.Call, ast.Yield, ast.YieldFrom, ast.Await, ast.NamedExpr)) for y in ast.walk(e))
+
+    def mentions(node, name):
+        return [y for y in ast.walk(node) if isinstance(y, ast.Name) and y.id == name]
+
+    def total_mentions(name):
+        return sum(1 for y in ast.walk(fn) if isinstance(y, ast.Name) and y.id == name) + \
+            sum(1 for y in ast.walk(fn) if isinstance(y, ast.ExceptHandler) and y.name == name)
+
+    def process(stmts):
+        changed = True
+        while changed:
+            changed = False
+            for k, st in enumerate(stmts):
+                if not (isinstance(st, ast.Assign) and len(st.targets) == 1 and isinstance(st.targets[0], ast.Name)):
+                    continue
+                x = st.targets[0].id
+                if x in params or x in nested_names or x == "self" or mentions(st.value, x):
+                    continue
+                # only temporaries that merely name a read or a call result (`t = self.a.b`, `t = f(x)`); literals, comprehensions
+                # and arithmetic stay where the author put them
+                if not (isinstance(st.value, (ast.Name, ast.Call)) or (isinstance(st.value, ast.Attribute) and _is_chain(st.value))):
+                    continue
+                # every mention of x in the function is at the top level of this list, in simple statements
+                here = sum(len(mentions(s2, x)) for s2 in stmts if isinstance(s2, SIMPLE))
+                if here != total_mentions(x):
+                    continue
+                eff = has_effect(st.value)
+                j = None
+                for m in range(k + 1, len(stmts)):
+                    s2 = stmts[m]
+                    if mentions(s2, x):
+                        j = m
+                        break
+                    if not (isinstance(s2, ast.Assign) and len(s2.targets) == 1 and isinstance(s2.targets[0], ast.Name) and not has_effect(s2.value)):
+                        break
+                    if eff:
+                        break
+                    # a later temp must not overwrite something E reads
+                    if any(isinstance(y, ast.Name) and y.id == s2.targets[0].id for y in ast.walk(st.value)):
+                        break
+                if j is None:
+                    continue
+                S = stmts[j]
+                if not isinstance(S, SIMPLE):
+                    continue
+                ms = mentions(S, x)
+                if len(ms) != 1 or not isinstance(ms[0].ctx, ast.Load):
+                    continue
+                # no further read of this definition: the next mention after j (if any) must be a fresh definition `x = ...`
+                later_ok = True
+                for m in range(j + 1, len(stmts)):
+                    s3 = stmts[m]
+                    mm = mentions(s3, x)
+                    if not mm:
+                        continue
+                    if isinstance(s3, ast.Assign) and len(s3.targets) == 1 and isinstance(s3.targets[0], ast.Name) and s3.targets[0].id == x and not mentions(s3.value, x):
+                        break
+                    later_ok = False
+                    break
+                if not later_ok:
+                    continue
+                if eff:
+                    val = getattr(S, "value", None)
+                    if not (j == k + 1 and isinstance(S, (ast.Assign, ast.Return, ast.AugAssign)) and val is ms[0]):
+                        continue
+                    if isinstance(S, ast.Assign) and any(has_effect(t) for t in S.targets):
+                        continue
+
+                class Rep(ast.NodeTransformer):
+                    def visit_Name(self, node):
+                        if node is ms[0]:
+                            return ast.copy_location(copy.deepcopy(st.value), node)
+                        return node
+                stmts[j] = Rep().visit(S)
+                ast.fix_missing_locations(stmts[j])
+                del stmts[k]
+                changed = True
+                break
+
+    def walk(stmts):
+        process(stmts)
+        for s_ in stmts:
+            if isinstance(s_, (ast.FunctionDef, ast.AsyncFunctionDef, ast.ClassDef)):
+                continue
+            for fld in ("body", "orelse", "finalbody"):
+                sub = getattr(s_, fld, None)
+                if isinstance(sub, list):
+                    walk(sub)
+            for h in getattr(s_, "handlers", []) or []:
+                walk(h.body)
+    walk(fn.body)
+
+
+def _lower_ifexp(fn):
+    """`x = A if C else B`, `return A if C else B`, `f(A if C else B)` (sole argument, f a plain name / attribute chain) become
+    if/else statements: the CFG then has the two arms as paths, like the statement form the rules were written against.  The
+    evaluation order is the same (C, then the chosen arm, then the store / call)."""
+    def simple_callee(e):
+        return isinstance(e, ast.Name) or (isinstance(e, ast.Attribute) and _is_chain(e))
+
+    def lower(st):
+        val = getattr(st, "value", None)
+        if isinstance(st, (ast.Assign, ast.AugAssign, ast.Return, ast.Expr, ast.AnnAssign)) and isinstance(val, ast.IfExp):
+            def arm(v):
+                c = copy.deepcopy(st)
+                c.value = v
+                return c
+            if isinstance(st, ast.Assign) and any(any(isinstance(y, (ast.Call, ast.Yield, ast.Await)) for y in ast.walk(t)) for t in st.targets):
+                return None
+            new = ast.If(test=val.test, body=[arm(val.body)], orelse=[arm(val.orelse)])
+            return ast.fix_missing_locations(ast.copy_location(new, st))
+        if isinstance(st, (ast.Assign, ast.Return, ast.Expr)) and isinstance(val, (ast.Call, ast.Await, ast.Yield)):
+            call = val.value if isinstance(val, (ast.Await, ast.Yield)) else val
+            if isinstance(call, ast.Call) and simple_callee(call.func) and len(call.args) == 1 and not call.keywords and isinstance(call.args[0], ast.IfExp):
+                ife = call.args[0]
+
+                def arm2(v):
+                    c = copy.deepcopy(st)
+                    cc = c.value.value if isinstance(c.value, (ast.Await, ast.Yield)) else c.value
+                    cc.args = [v]
+                    return c
+                new = ast.If(test=ife.test, body=[arm2(ife.body)], orelse=[arm2(ife.orelse)])
+                return ast.fix_missing_locations(ast.copy_location(new, st))
+        return None
+
+    def walk(stmts):
+        for k, st in enumerate(list(stmts)):
+            if isinstance(st, (ast.FunctionDef, ast.AsyncFunctionDef, ast.ClassDef)):
+                continue
+            n = lower(st)
+            if n is not None:
+                stmts[k] = n
+                st = n
+            for fld in ("body", "orelse", "finalbody"):
+                sub = getattr(st, fld, None)
+                if isinstance(sub, list):
+                    walk(sub)
+            for h in getattr(st, "handlers", []) or []:
+                walk(h.body)
+    walk(fn.body)
+
+
 def normalize_module(tree):
+    for fn in [n for n in ast.walk(tree) if isinstance(n, (ast.FunctionDef, ast.AsyncFunctionDef))]:
+        _lower_ifexp(fn)
+    for fn in [n for n in ast.walk(tree) if isinstance(n, (ast.FunctionDef, ast.AsyncFunctionDef))]:
+        _index_loop_to_for(fn)
+    for fn in [n for n in ast.walk(tree) if isinstance(n, (ast.FunctionDef, ast.AsyncFunctionDef))]:
+        _inline_single_use_temps(fn)
     for fn in [n for n in ast.walk(tree) if isinstance(n, (ast.FunctionDef, ast.AsyncFunctionDef))]:
         _split_tuple_assigns(fn)
     for fn in [n for n in ast.walk(tree) if isinstance(n, (ast.FunctionDef, ast.AsyncFunctionDef))]:
